@@ -107,7 +107,10 @@ func permissionInterceptor(w http.ResponseWriter, r *http.Request) bool {
 	userName := r.Header.Get(usernameHeaderKey)
 	u := auth.Get(userName)
 
-	streamPath, _ := extractStreamPathAndExt(r.URL.Path)
+	streamPath, ext := extractStreamPathAndExt(r.URL.Path)
+	if ext == ".ts" { // /streams/{path}/{seq}.ts：权限针对流路径，而不是带序号的路径
+		streamPath = path.Dir(streamPath)
+	}
 
 	if u == nil || !u.ValidatePermission(streamPath, auth.PullRight) {
 		http.Error(w, http.StatusText(http.StatusForbidden), http.StatusForbidden)
